@@ -334,6 +334,39 @@ fn apply_damage(cf: &mut Vec<u8>, kind: &Damage) -> bool {
             true
         }
         Damage::Concat { .. } => false, // needs the other checkfile: done by the caller
+        Damage::RepeatSelf { n } => {
+            if cf.is_empty() || cf.len() * *n > (8 << 20) {
+                return false;
+            }
+            if cf.last() != Some(&b'\n') {
+                cf.push(b'\n');
+            }
+            let one = cf.clone();
+            for _ in 1..*n {
+                cf.extend_from_slice(&one);
+            }
+            true
+        }
+        Damage::DupWithSuffix { line, suffix_hex } => {
+            let Ok(text) = String::from_utf8(cf.clone()) else { return false };
+            let lines: Vec<&str> = text.split_inclusive('\n').collect();
+            if lines.is_empty() {
+                return false;
+            }
+            let l = lines[line % lines.len()].trim_end_matches(['\r', '\n']);
+            let Ok(suffix) = String::from_utf8(unhex(suffix_hex)) else { return false };
+            // tagged: "BLAKE3 (name) = hash" -> the name ends before the last ") = "; untagged: the name ends the line
+            let dup = match (l.trim_start_matches('\\').starts_with("BLAKE3 ("), l.rfind(") = ")) {
+                (true, Some(i)) => format!("{}{}{}", &l[..i], suffix, &l[i..]),
+                _ => format!("{l}{suffix}"),
+            };
+            if !cf.is_empty() && cf.last() != Some(&b'\n') {
+                cf.push(b'\n');
+            }
+            cf.extend_from_slice(dup.as_bytes());
+            cf.push(b'\n');
+            true
+        }
         Damage::TruncateBytes { n } => {
             let k = if cf.is_empty() { 0 } else { n % cf.len() };
             cf.truncate(k);
@@ -587,6 +620,8 @@ pub fn do_cli(sh: &Arc<Shared>, _local: &mut TaskLocal, op: &Op) -> OpResult {
                 Damage::AppendLine { .. } => "checkfile_spliced_line",
                 Damage::AppendLines { .. } => "checkfile_many_failing_lines",
                 Damage::Concat { .. } => "checkfile_concatenated",
+                Damage::RepeatSelf { .. } => "checkfile_repeated_many_times",
+                Damage::DupWithSuffix { .. } => "checkfile_duplicate_entry_with_path_suffix",
                 Damage::TruncateBytes { .. } => "checkfile_truncated",
                 Damage::InvalidUtf8 { .. } => "checkfile_invalid_utf8",
                 Damage::DropFinalNewline => "checkfile_no_final_newline",
@@ -856,6 +891,35 @@ pub fn do_cli(sh: &Arc<Shared>, _local: &mut TaskLocal, op: &Op) -> OpResult {
         // real special files deliver their bytes in pieces the simulator does not control: their kernel calls are
         // not scheduling points (they would make the trace depend on timing)
         Op::FileKinds { kind } => crate::sched::quiet(|| file_kinds(sh, *kind)),
+        Op::CliSpecial { kind, flags, data } => {
+            let mut args = flag_args(sh, flags)?;
+            let (path, content, stdin): (&str, Vec<u8>, Vec<u8>) = if kind % 2 == 0 {
+                let Ok(c) = std::fs::read("/proc/version") else { return Err(OpErr::Skip) };
+                ("/proc/version", c, Vec::new())
+            } else {
+                let c = sh.data.get(*data).cloned().unwrap_or_default();
+                ("/dev/stdin", c.clone(), c)
+            };
+            args.push("--".into());
+            args.push(path.into());
+            let out = run_b3sum(sh, &args, &stdin)?;
+            if let Some(c) = crashed(&out) {
+                return viol("panic", c);
+            }
+            let len = flags.length.unwrap_or(32);
+            let digest = lib_output(&MMode::Hash, &content, 0, len as usize);
+            let mut want = model_output_line(path.as_bytes(), &hex(&digest), flags.tag).into_bytes();
+            want.push(b'\n');
+            if out.stdout != want || out.code != Some(0) {
+                return viol(
+                    "result-mismatch",
+                    format!("b3sum {:?} on {} ({} bytes when read): exit {:?}, stdout {:?}, want {:?}", args, path, content.len(), out.code, String::from_utf8_lossy(&out.stdout), String::from_utf8_lossy(&want)),
+                );
+            }
+            sh.probe(if kind % 2 == 0 { "cli_proc_file" } else { "cli_pipe_opened_by_path" });
+            Ok(Fnv::of(&out.stdout))
+        }
+        Op::HugeFile { extra, seed, via } => crate::sched::quiet(|| huge_file(sh, *extra, *seed, *via)),
         Op::SysFault { target, data, syscall, errno, when } => sys_fault(sh, *target, *data, *syscall, *errno, *when),
         _ => Err(OpErr::Skip),
     }
@@ -931,6 +995,65 @@ fn file_kinds(sh: &Arc<Shared>, kind: u8) -> OpResult {
     Ok(oks.first().map_or(0xE77, |o| Fnv::of(&o.0)))
 }
 
+
+/// a file of 2^32 + extra bytes: lengths and offsets that no longer fit 32 bits, on the path adapters
+fn huge_file(sh: &Arc<Shared>, extra: u32, seed: u64, via: u8) -> OpResult {
+    use std::os::unix::fs::FileExt;
+    let dir = sh.scratch_dir()?;
+    let path = dir.join("huge.bin");
+    let len: u64 = (1u64 << 32) + extra as u64;
+    let mut head = vec![0u8; 5000];
+    let mut tail = vec![0u8; 20000];
+    let mut r = crate::rng::Rng::new(seed);
+    r.fill(&mut head);
+    r.fill(&mut tail);
+    let mk = || -> std::io::Result<()> {
+        let f = std::fs::File::create(&path)?;
+        f.set_len(len)?;
+        f.write_all_at(&head, 0)?;
+        f.write_all_at(&tail, len - tail.len() as u64)?;
+        Ok(())
+    };
+    if let Err(e) = mk() {
+        // no room or no sparse files here: nothing to judge
+        let _ = std::fs::remove_file(&path);
+        sh.probe("huge_file_not_creatable_skipped");
+        eprintln!("note: huge sparse file not created ({e}); run skipped");
+        return Err(OpErr::Skip);
+    }
+    let mut h = blake3::Hasher::new();
+    let res: std::io::Result<()> = match via % 3 {
+        0 => h.update_mmap(&path).map(|_| ()),
+        1 => {
+            let pool = rayon_core::ThreadPoolBuilder::new().num_threads(16).build().map_err(|e| OpErr::Harness(e.to_string()))?;
+            pool.install(|| h.update_mmap_rayon(&path).map(|_| ()))
+        }
+        _ => std::fs::File::open(&path).and_then(|f| h.update_reader(f).map(|_| ())),
+    };
+    let _ = std::fs::remove_file(&path);
+    if let Err(e) = res {
+        return viol("result-mismatch", format!("hashing a regular file of {len} bytes by path failed: {e}"));
+    }
+    // oracle: the same bytes through plain update
+    let mut o = blake3::Hasher::new();
+    o.update(&head);
+    let zeros = vec![0u8; 1 << 20];
+    let mut left = len - head.len() as u64 - tail.len() as u64;
+    while left > 0 {
+        let k = left.min(zeros.len() as u64) as usize;
+        o.update(&zeros[..k]);
+        left -= k as u64;
+    }
+    o.update(&tail);
+    if h.count() != len {
+        return viol("count-mismatch", format!("count()={} after hashing a file of {len} bytes by path (adapter {})", h.count(), via % 3));
+    }
+    if h.finalize() != o.finalize() {
+        return viol("result-mismatch", format!("a file of {len} bytes hashed by path (adapter {}) differs from update() on the same bytes", via % 3));
+    }
+    sh.probe("file_of_2^32_bytes_or_more");
+    Ok(len)
+}
 
 pub fn strace_available() -> bool {
     use std::sync::OnceLock;
